@@ -46,7 +46,7 @@ def model_requests(case, obs):
 
 
 def nontrivial(case, obs):
-    return bool(case["out"]) and G.nontrivial(case, obs)
+    return bool(G.eff_out(case)) and G.nontrivial(case, obs)
 
 
 OUT_SHAPES = [([0], [0]), ([0], [0, 1]), ([], [1, 0]), ([0, 1], [0, 1]), ([0], [0, 1, 2]), ([], [2, 0, 1]), ([0], [0, 0])]
@@ -63,6 +63,8 @@ def gen_cases(rng, tier):
             if not G.fits(cfg["ver"], cfg["dialog"], len(cfg["in"]), len(cfg["out"])):
                 cfg["in"] = cfg["in"][:1]
         cfg["turns"] = [G.gen_turn(rng, cfg, k + 1, w_in, w_out, p_retr=0.04) for k in range(rng.choice([2, 3, 3, 4, 5]))]
+        if rng.random() < 0.2 and G.fits(cfg["ver"], cfg["dialog"], len(cfg["in"]), len(cfg["out"]), sc=True):
+            G.add_selfcheck(rng, cfg)
         cases.append(cfg)
     # every turn position blocked / rewritten / faulted once, all later turns clean
     shapes = OUT_SHAPES if tier == "thorough" else OUT_SHAPES[:3]
@@ -95,7 +97,7 @@ def gen_cases(rng, tier):
 
 def turn_oracle(case, tc, to):
     steps = to["steps"]
-    cfg_out = case["out"]
+    cfg_out = G.eff_out(case)
     rep = to["reply"]
     text = G.reply_text(rep)
     # did the LLM produce a bot message in this turn?
@@ -158,4 +160,4 @@ def oracle(case, obs):
 
 
 def signature(case, obs, msg):
-    return G.region_signature(case, obs, msg, oracle_codes_stale=("blocked-returned", "out-after-block", "lost-text", "out-skipped"), oracle_codes_flag=("out-skipped",))
+    return G.region_signature(case, obs, msg, oracle_codes_stale=("blocked-returned", "out-after-block", "lost-text", "out-skipped"), oracle_codes_flag=("out-skipped",), oracle_codes_sc=("blocked-returned",))
